@@ -171,6 +171,17 @@ def translate():
             raise TranslateError(f'{b} never assigned')
     st = tr.state
     body = '\n'.join(tr.lets)
+    # AbstractBasis.__init__: the scatter loop of the DOF location table (shape check; modelled by scatter_doflocs)
+    bt = t2.parse('skfem/assembly/basis/abstract_basis.py')
+    init = t2.find_def(bt, '__init__', 'AbstractBasis')
+    tries = [n for n in ast.walk(init) if isinstance(n, ast.Try)]
+    sc_body = [t2.src(x) for x in t2.only(tries, 'doflocs try block').body]
+    want = ['doflocs = self.mapping.F(elem.doflocs.T)',
+            'self.doflocs = np.zeros((doflocs.shape[0], self.N))',
+            'for itr in range(doflocs.shape[0]):\n    for jtr in range(self.dofs.element_dofs.shape[0]):\n'
+            '        self.doflocs[itr, self.dofs.element_dofs[jtr]] = doflocs[itr, :, jtr]']
+    if sc_body != want:
+        raise TranslateError('AbstractBasis.__init__ doflocs scatter: ' + repr(sc_body)[:300])
     # Element._bfun_counts
     et = t2.parse('skfem/element/element.py')
     bf = t2.find_def(et, '_bfun_counts', 'Element')
